@@ -240,15 +240,20 @@ TextComps(p, x) ==
        TextComps(p, p[j].x) \o SfxComps(x.sfx)
 
 HasUse == \E j \in 1..Len(prog) : prog[j].op = "use"
+\* `copy SRC RELATIVITY` - a relativity option alone: the destination is that root directory itself, which exists, so
+\* the source is copied INTO it under its own name
+BareDirDest(x) == role = "copydst" /\ depth = 0 /\ cdpos = 0 /\ x.rel \in Opts /\ x.sfx = "E"
+IntoDirOf(x) == IF BareDirDest(x) THEN <<"src.txt">> ELSE <<>>
 Built  == Len(prog) + 1 = Len(Layout)          \* the instruction being added is the last one
 
 AddUse ==
   /\ stage = "build" /\ Slot = "use" /\ ~HasUse /\ Frame
   /\ \E rel \in (IF depth = 0 THEN (Opts \cup {"default"}) ELSE {"relsym", "ref"}),
-        s \in (IF depth = 0 THEN BaseSet ELSE LinkSet) :
+        s \in (IF depth = 0 THEN BaseSet \cup (IF role = "copydst" /\ cdpos = 0 THEN {"E"} ELSE {}) ELSE LinkSet) :
        LET x == [rel |-> rel, sym |-> depth, sfx |-> s] IN
        /\ IF depth = 0 THEN BaseOk(x, role) ELSE LinkOk(x)
-       /\ (role # "def") => TextComps(prog, x) # <<>>        \* the use designates something below a root
+       \* the use designates something below a root (or, for copy, a root itself)
+       /\ (role # "def") => (TextComps(prog, x) # <<>> \/ BareDirDest(x))
        /\ prog' = Append(prog, [op |-> "use", role |-> role, x |-> x])
   /\ stage' = (IF Built THEN "parse" ELSE "build") /\ pc' = 1
   /\ UNCHANGED <<symtab, cwd, outcome, uses, created, nexec, cwdAtDef>>
@@ -351,7 +356,7 @@ ExecCd ==
 ExecUse ==
   /\ stage = "exec" /\ prog[pc].op = "use" /\ Frame
   /\ LET b == Loc(Eval(prog[pc].x, symtab, Default(role)), cwd)      \* resolved NOW, against the current cwd
-         l == [root |-> b.root, comps |-> b.comps \o Leaf(Len(uses) + 1)] IN
+         l == [root |-> b.root, comps |-> b.comps \o Leaf(Len(uses) + 1) \o IntoDirOf(prog[pc].x)] IN
      /\ uses' = Append(uses, [loc |-> l, at |-> cwd])
      /\ created' = IF role \in {"file", "dir", "copydst"} THEN created \cup {l} ELSE created
      /\ cwd' = IF role = "cd" THEN l ELSE cwd
@@ -378,6 +383,7 @@ IsPrefix(a, b) == Len(a) <= Len(b) /\ SubSeq(b, 1, Len(a)) = a
 \* where a relativity root is when use instruction k is executed
 RootLoc(r, k) == IF r = "cd" THEN uses[k].at ELSE [root |-> r, comps |-> <<>>]
 NumUses == IF cdpos = 3 THEN 2 ELSE 1
+IntoDir == IntoDirOf(Use.x)
 
 \* ---- properties (checked with Deviations = {}) ---------------------------------------------------
 TypeOK ==
@@ -392,14 +398,14 @@ ResolvesUnderRoot ==
      /\ Len(uses) = NumUses
      /\ \A k \in 1..Len(uses) :
           /\ uses[k].loc.root = RootLoc(UseRoot, k).root
-          /\ uses[k].loc.comps = RootLoc(UseRoot, k).comps \o TextComps(prog, Use.x) \o Leaf(k)
+          /\ uses[k].loc.comps = RootLoc(UseRoot, k).comps \o TextComps(prog, Use.x) \o Leaf(k) \o IntoDir
           /\ IsPrefix(RootLoc(UseRoot, k).comps, uses[k].loc.comps)
 \* relative to the current directory means: current when the path is USED - at each use anew
 RelCdAtUse ==
   (Len(uses) >= 1 /\ UseRoot = "cd") =>
      /\ \A k \in 1..Len(uses) :
           /\ uses[k].loc = [root |-> uses[k].at.root,
-                            comps |-> uses[k].at.comps \o TextComps(prog, Use.x) \o Leaf(k)]
+                            comps |-> uses[k].at.comps \o TextComps(prog, Use.x) \o Leaf(k) \o IntoDir]
           /\ (depth >= 1 /\ cwdAtDef # uses[k].at)
                 => uses[k].loc # [root |-> cwdAtDef.root,
                                   comps |-> cwdAtDef.comps \o TextComps(prog, Use.x) \o Leaf(k)]
